@@ -1,6 +1,7 @@
-(** Witnesses against the stronger statements, for the code as it was / is.  The
-    configurations are written out here (not taken from Gen.Consts): the theorems speak
-    about the code variant they name, whatever the tree currently contains. *)
+(** Witnesses against the stronger statements, for the code as it was before the two
+    file-lock fixes.  The configurations are written out here (not taken from
+    Gen.Consts): the theorems speak about the code variant they name, whatever the tree
+    currently contains. *)
 From Coq Require Import List ZArith Bool Lia.
 From CM Require Import FileLock.Model FileLock.Proofs.
 Import ListNotations.
@@ -9,9 +10,10 @@ Open Scope Z_scope.
 Definition sec : Z := 1000000000.
 
 (** the code before the heartbeat fix: keepLockfileFresh refreshes whatever file it finds *)
-Definition cfg_nofix : config := Config (5 * sec) sec 2 8 250000000 false false (2 * sec).
-(** the code as it is: emptyCount is cumulative over the whole Lock call *)
-Definition cfg_asis : config := Config (5 * sec) sec 2 8 250000000 false true (2 * sec).
+Definition cfg_nofix : config := Config (5 * sec) sec 2 8 250000000 false false (2 * sec) 0.
+(** the code before the emptyCount fix (heartbeat fix applied): emptyCount is cumulative
+    over the whole Lock call *)
+Definition cfg_asis : config := Config (5 * sec) sec 2 8 250000000 false true (2 * sec) 0.
 
 (** ** 1. the zombie heartbeat
 
@@ -123,7 +125,7 @@ Qed.
 
 (** with a count that is reset by every successful decode the same schedule is harmless:
     the eighth gap read just sleeps again *)
-Definition cfg_resets : config := Config (5 * sec) sec 2 8 250000000 true true (2 * sec).
+Definition cfg_resets : config := Config (5 * sec) sec 2 8 250000000 true true (2 * sec) 0.
 Example empty_count_run_with_reset :
   run cfg_resets init empty_count_run = None /\
   exists s, run cfg_resets init (firstn 86 empty_count_run) = Some s /\
